@@ -268,6 +268,18 @@ def main() -> int:
                 d["paths"] = {"/c": {"get": {"operationId": "get_c", "responses": {"200": {"description": "ok", "content": {"application/json": {"schema": {"$ref": "#/components/schemas/" + items[1][0]}}}}}}}}
                 j = add(f"clash:{cname}:{order}:{le}", ("clash", cname, order, le), doc=d, cfg={"literal_enums": le}, cpu_limit=30)
                 meta[j["id"]]["fault"] = {"clash": cname, "order": order, "literal_enums": le}
+    # (f) rarely used / 3.1-specific features under option sets, and malformed post-hook entries (configuration is input too: a diagnostic, never a traceback)
+    for label, d in docs_mod.rare_feature_docs():
+        for ci_, cfg_ in enumerate(({}, {"literal_enums": True, "generate_all_tags": True}, {"docstrings_on_attributes": True, "use_path_prefixes_for_title_model_names": False})):
+            j = add(f"rare:{label}:{ci_}", ("rare", label, ci_), doc=d, cfg=cfg_, via="cli" if ci_ == 1 else None, cpu_limit=30)
+            meta[j["id"]]["fault"] = {"rare": label, "cfg": cfg_}
+    hook_doc = docs_mod.rare_feature_docs()[1][1]
+    for hi_, hook in enumerate(["", " ", "\t", "echo it's generated", 'echo "unbalanced', "true; false", "nonexistent-command-zq --x", "  true  ", "exit 3", "'"]):
+        for via_ in ("cli", "subprocess") if hi_ % 3 == 0 else ("cli",):
+            j = add(f"hook:{hi_}:{via_}", ("hook", hi_, via_), doc=hook_doc, cfg={"post_hooks": [hook]}, via=via_, fail_on_warning=bool(hi_ % 2), cpu_limit=30)
+            meta[j["id"]]["fault"] = {"post_hook": hook}
+        j = add(f"hook-api:{hi_}", ("hook-api", hi_), doc=hook_doc, cfg={"post_hooks": [hook]}, cpu_limit=30)
+        meta[j["id"]]["fault"] = {"post_hook": hook}
     # random pairs
     for k in range(150 if quick else 3000):
         bname, bdoc = bases[k % len(bases)]
@@ -333,7 +345,7 @@ def main() -> int:
             exp = 1 if has_error or (has_warning and j.get("fail_on_warning")) else 0
             if res.get("cli_exit") not in (exp,):
                 vd.violation(f"exit_code:{exp}->{res.get('cli_exit')}", f"{mi['label']}: exit status {res.get('cli_exit')} but headline says error={has_error} warning={has_warning} fail_on_warning={bool(j.get('fail_on_warning'))}: {err[-200:]}", wit)
-            if has_error and res.get("out_exists"):
+            if has_error and res.get("out_exists") and "post_hook" not in (mi.get("fault") or {}):  # (a failing post-hook is reported after the client was written: the document was not rejected)
                 vd.violation("output_written_on_rejection", f"{mi['label']}: output directory exists after the document was rejected", wit)
             if not has_error and not has_warning and res.get("cli_exit") == 0 and not res.get("out_exists"):
                 vd.violation("nothing_written_on_success", f"{mi['label']}: exit 0 without diagnostics but no output directory", wit)
@@ -344,7 +356,7 @@ def main() -> int:
             ev.count("diagnostics", len(diags))
             if any(d["level"] == "ERROR" for d in diags):
                 ev.count("rejected_documents")
-                if res.get("out_exists"):
+                if res.get("out_exists") and "post_hook" not in (mi.get("fault") or {}):
                     vd.violation("output_written_on_rejection", f"{mi['label']}: output directory exists after an ERROR-level diagnostic: {[d['header'] for d in diags][:2]}", wit)
             else:
                 ev.count("generated_with_or_without_warnings")
